@@ -62,6 +62,8 @@ reg("C02",
     H("c02", "c02_plaintext_heartbeat_5", bounds="heartbeat record, length 5 concrete, payload symbolic", funcs=["parse_tls_message_heartbeat"]),
     )
 
+reg("C02", H("c02", "c02_false_twin", tier="thorough", expect_fail=True, bounds="vacuity guard: same body + assert!(false); must FAIL"))
+
 # ------------------------------------------------------------------------------------------------ C03
 _RWH = ["parse_tls_record_with_header"]
 reg("C03",
@@ -87,11 +89,11 @@ C04_BOUNDS = {
     "c04_dispatch_wiring": "<= 10 B symbolic length; handshake type over all 256 values, 24-bit length symbolic; all body parsers stubbed",
     "c04_new_session_ticket": "<= 9 B symbolic length; len argument over the full usize range",
     "c04_certificate": "<= 11 B symbolic length: up to 2 certificates, all u24 length fields symbolic",
-    "c04_certificate_request": "<= 9 B symbolic length; both forms",
+    "c04_certificate_request": "<= 8 B symbolic length; both forms",
 }
 reg("C04",
     H("c04", "c04_client_hello_shape_min", bounds="ClientHello of concrete shape: no session id, no ciphers, no compressions, no extension block; contents symbolic", funcs=["parse_tls_handshake_client_hello"]),
-    H("c04", "c04_client_hello_shape_sid32_c2_m1_ext0", bounds="ClientHello of concrete shape: 32-byte session id, 2 ciphers, 1 compression, empty extension block; contents symbolic", funcs=["parse_tls_handshake_client_hello"], timeout=600),
+    H("c04", "c04_client_hello_shape_sid32_c2_m1_ext0", bounds="ClientHello of concrete shape: 32-byte session id, 2 ciphers, 1 compression, empty extension block; contents symbolic", funcs=["parse_tls_handshake_client_hello"], timeout=900, mem=20),
     H("c04", "c04_client_hello_shape_sid1_c3_m2_ext2", bounds="ClientHello of concrete shape: 1-byte session id, 3 ciphers, 2 compressions, 2-byte extension block; contents symbolic", funcs=["parse_tls_handshake_client_hello"], timeout=600),
     H("c04", "c04_client_hello_sid33_rejected", bounds="session-id length byte 33, everything else symbolic", funcs=["parse_tls_handshake_client_hello"]),
     H("c04", "c04_server_hello_draft18_40", tier="quick", timeout=600, mem=8, bounds=C04_BOUNDS.get("c04_server_hello_draft18_40", "symbolic bytes; see harness source"), funcs=["server_hello_draft18_40"]),
@@ -102,7 +104,7 @@ reg("C04",
     H("c04", "c04_certificate_status", tier="quick", timeout=600, mem=8, bounds=C04_BOUNDS.get("c04_certificate_status", "symbolic bytes; see harness source"), funcs=["certificate_status"]),
     H("c04", "c04_next_protocol", tier="quick", timeout=600, mem=8, bounds=C04_BOUNDS.get("c04_next_protocol", "symbolic bytes; see harness source"), funcs=["next_protocol"]),
     H("c04", "c04_key_update_and_hello_request", tier="quick", timeout=600, mem=8, bounds=C04_BOUNDS.get("c04_key_update_and_hello_request", "symbolic bytes; see harness source"), funcs=["key_update_and_hello_request"]),
-    H("c04", "c04_certificate_request", tier="quick", timeout=600, mem=8, bounds=C04_BOUNDS.get("c04_certificate_request", "symbolic bytes; see harness source"), funcs=["certificate_request"]),
+    H("c04", "c04_certificate_request", tier="quick", timeout=1200, mem=20, bounds=C04_BOUNDS.get("c04_certificate_request", "symbolic bytes; see harness source"), funcs=["certificate_request"]),
     H("c04", "c04_dispatch_wiring", tier="quick", timeout=900, mem=12, stubs=["all 15 parse_tls_handshake_msg_* body parsers (marker stubs)"], bounds=C04_BOUNDS.get("c04_dispatch_wiring", "symbolic bytes; see harness source"), funcs=["dispatch_wiring"]),
     H("c04", "c04_client_hello_38", tier="quick", timeout=900, mem=12, bounds=C04_BOUNDS.get("c04_client_hello_38", "symbolic bytes; see harness source"), funcs=["client_hello_38"]),
     H("c04", "c04_client_hello_41", tier="quick", timeout=900, mem=16, bounds=C04_BOUNDS.get("c04_client_hello_41", "symbolic bytes; see harness source"), funcs=["client_hello_41"]),
@@ -192,6 +194,8 @@ reg("C05",
     H("c05", "c05_derived_tag", bounds="GREASE / unknown type over all 65536 values", funcs=["TlsExtensionType::from(&TlsExtension)"]),
     )
 
+reg("C05", H("c05", "c05_false_twin_dispatch_native", tier="thorough", expect_fail=True, bounds="vacuity guard: same body + assert!(false); must FAIL"))
+
 # ------------------------------------------------------------------------------------------------ C07
 _RP = ["TlsRecordsParser::parse_record", "TlsRecordsParser::parse_record_nocopy", "TlsRecordsParser::reset", "TlsRecordsParser::defrag_in_progress"]
 reg("C07",
@@ -252,6 +256,8 @@ reg("C09",
     H("c09", "c09_unsupported_6", cfg="serialize", timeout=900, mem=12, bounds="concrete shape, symbolic field contents (see harness)", funcs=["unsupported_6"]),
     H("c09", "c09_unsupported_7", cfg="serialize", timeout=900, mem=12, bounds="concrete shape, symbolic field contents (see harness)", funcs=["unsupported_7"]),
     )
+
+reg("C08", H("c08", "c08_false_twin", tier="thorough", expect_fail=True, bounds="vacuity guard: same body + assert!(false); must FAIL"))
 
 # ------------------------------------------------------------------------------------------------ C10
 _DH = ["parse_dtls_message_handshake"]
@@ -324,6 +330,8 @@ reg("C13",
     H("c13", "c13_content_and_signature_dh", bounds="<= 12 B symbolic length, ext symbolic", funcs=["parse_content_and_signature::<parse_dh_params>"]),
     H("c13", "c13_content_and_signature_ecdh", bounds="<= 11 B symbolic length, ext symbolic", funcs=["parse_content_and_signature::<parse_ecdh_params>"]),
     )
+
+reg("C13", H("c13", "c13_false_twin", tier="thorough", expect_fail=True, bounds="vacuity guard: same body + assert!(false); must FAIL"))
 
 # ------------------------------------------------------------------------------------------------ C14
 reg("C14",
